@@ -254,6 +254,46 @@ def h_cog_gbox_tile():
     prove("same_grid", And(ex(g0.affine.c) == ex(g.affine.c), ex(g0.affine.f) == ex(g.affine.f), ex(g0.affine.a) == 10))
 
 
+def h_yaxis(case):
+    import odc.geo.geobox as gbx
+    from affine import Affine
+
+    sh = shm()
+    ny, nx = Int("ny", 5), Int("nx", 5)
+    g = gbx.GeoBox((ny, nx), Affine(rconst(10), 0.0, Real("c"), 0.0, rconst(-10), Real("f")), None)
+    if case == "2d":
+        prove("YX", sh.yaxis_from_shape((ny, nx)) == ("YX", 0))
+    elif case == "rgb":
+        ns = Int("ns", 3, 4)
+        prove("YXS_for_3_or_4_trailing_samples", sh.yaxis_from_shape((ny, nx, ns)) == ("YXS", 0))
+    elif case == "syx_nogbox":
+        ns = Int("ns", 5)
+        prove("SYX_without_geobox", sh.yaxis_from_shape((ns, ny, nx)) == ("SYX", 1))
+    elif case == "yxs_gbox":
+        ns = Int("ns", 5)
+        prove("YXS_when_leading_dims_match_geobox", sh.yaxis_from_shape((ny, nx, ns), g) == ("YXS", 0))
+    elif case == "syx_gbox":
+        ns = Int("ns", 5)
+        assume(Or(ns != ny, ny != nx))  # otherwise both readings are possible
+        r = sh.yaxis_from_shape((ns, ny, nx), g)
+        prove("SYX_when_trailing_dims_match_geobox", r == ("SYX", 1) or (r == ("YXS", 0) and bool(And(ns == ny, ny == nx, False))))
+    elif case == "bad":
+        ns = Int("ns", 5)
+        m1, m2 = Int("m1", 5), Int("m2", 5)
+        assume(And(Or(m1 != ny, m2 != nx), Or(ns != ny, m1 != nx)))
+        try:
+            sh.yaxis_from_shape((ns, m1, m2), g)
+        except ValueError:
+            pass
+        else:
+            prove("mismatch_raises", False)
+        try:
+            sh.yaxis_from_shape((ny,))
+        except ValueError:
+            return
+        prove("1d_raises", False)
+
+
 AX = ["YX", "YXS", "SYX"]
 
 OBLIGATIONS = [
@@ -270,6 +310,8 @@ OBLIGATIONS = [
        functions=("odc.geo.cog._shared.CogMeta.tidx",), bounds="<= 2x3 tiles, <= 2 planes (case split)", stubs=("np.ndindex with case-split bounds",), setup=setup),
     Ob("L7_cog_tidx_order", h_cog_tidx, fixed(), descr="cog_tidx(): all overview tiles precede full-resolution tiles, smallest level first, every tile once",
        functions=("odc.geo.cog._shared.CogMeta.cog_tidx",), bounds="image sides 1..64 with two overview levels (case split)", setup=setup),
+    Ob("L8_yaxis_from_shape", h_yaxis, fixed(*[dict(case=c) for c in ("2d", "rgb", "syx_nogbox", "yxs_gbox", "syx_gbox", "bad")]),
+       descr="yaxis_from_shape: axis order (YX / YXS / SYX) from the array shape and the GeoBox", functions=("odc.geo.cog._shared.yaxis_from_shape",), bounds="dims symbolic >= 5 (3/4 for RGB(A))", setup=setup),
     Ob("L5_extract_tile_info", h_extract_tile_info, tiered([dict(n=n) for n in (1, 2, 3)], [dict(n=n) for n in (1, 2, 3, 4)]),
        descr="_extract_tile_info: offsets = start + prefix sums in observed order, lengths = sizes, empty tiles (0,0), non-empty extents pairwise disjoint",
        functions=("odc.geo.cog._tifffile._extract_tile_info",), bounds="<= 4 observed tiles, symbolic sizes >= 0, symbolic observation order, symbolic start offset", setup=setup),
